@@ -4,6 +4,8 @@ import RainModel.Lemmas.STree
 import RainModel.Lemmas.Blocklist
 import RainModel.Model.AddrList
 import RainModel.Lemmas.AddrList
+import RainModel.Model.Admission
+import RainModel.Lemmas.Admission
 /-!
 C18 — blocklist semantics are exact and filtered addresses are never contacted.
 Property theorems only; helper lemmas live in `Lemmas/`.
@@ -338,5 +340,138 @@ example :
     ((s3.bind pop).toOption.map fun r => r.1.map (·.ip)) = some (some 14) := by decide
 
 end AddrList
+
+/-! ## Dial and accept decisions of package `torrent` -/
+
+section Admission
+open Rain.AddrList Rain.Admission
+
+/-- The repaired decision code: `dialAddresses` consults `bannedPeerIPs` and re-checks the blocklist. -/
+def fixedCfg (maxDial maxAccept : Nat) (blIn blOut : Bool) : Cfg := ⟨maxDial, maxAccept, blIn, blOut, true, true⟩
+
+/-- **dial_admission.** For every state whose candidate queue is a reachable `AddrList` state,
+`dialAddresses()` terminates without panic and every address it hands to an outgoing handshaker
+* was taken from the queue (so, by `push_filters`, has port ≠ 0, is not the client's own address and
+  was not blocked when it was pushed),
+* has an IP that was not in `connectedPeerIPs` (connected or connecting), and no IP is dialled twice,
+* (repaired code, `checkBan`) has an IP that is not in `bannedPeerIPs`,
+* (repaired code, `recheckBlocklist`) is not blocked by the list loaded *now*, when the blocklist is
+  enabled for outgoing connections;
+every dialled IP is recorded in `connectedPeerIPs`, and the number of outgoing connections does not
+exceed `MaxPeerDial` if it did not before.  Nothing is dialled for a completed torrent. -/
+theorem dial_admission (cfg : Cfg) (blocked : Nat → Bool) {max : Nat} {ok : Nat → Nat → Prop}
+    (s : State) (hq : Reach max ok s.queue) :
+    ∃ s' dialled, dialAddresses cfg blocked s = .ok (s', dialled) ∧
+      (s.completed = true → dialled = []) ∧
+      (∀ a ∈ dialled, (∃ q ∈ s.queue.entries, q.ip = a.1 ∧ q.port = a.2) ∧ ok a.1 a.2 ∧
+        a.1 ∉ s.connected ∧ a.1 ∈ s'.connected ∧
+        (cfg.checkBan = true → a.1 ∉ s.banned) ∧
+        (cfg.recheckBlocklist = true → cfg.blOutgoing = true → blocked a.1 = false)) ∧
+      (dialled.map (·.1)).Nodup ∧
+      (s.outgoing.length ≤ cfg.maxPeerDial → s'.outgoing.length ≤ cfg.maxPeerDial) ∧
+      s'.banned = s.banned := by
+  obtain ⟨hg, hok⟩ := reach_good hq
+  unfold dialAddresses
+  by_cases hc : s.completed = true
+  · rw [if_pos hc]
+    exact ⟨s, [], rfl, fun _ => rfl, by simp, by simp, fun h => h, rfl⟩
+  · rw [if_neg hc]
+    obtain ⟨s', new, h1, _, h3, h4, _, h6, h7, _, h9⟩ :=
+      dialLoop_spec cfg blocked max (s.queue.len + 1) s [] ⟨hg.inv, hg.counts, hg.bound⟩ (Nat.lt_succ_self _)
+    simp only [List.nil_append] at h1
+    refine ⟨s', new, h1, fun h => absurd h hc, ?_, h7, h9, h3⟩
+    intro a ha
+    obtain ⟨⟨q, hq', e1, e2⟩, r2, r3, r4⟩ := h6 a ha
+    refine ⟨⟨q, hq', e1, e2⟩, ?_, r2, ?_, r3, r4⟩
+    · rw [← e1, ← e2]; exact hok q hq'
+    · exact (h4 a.1).2 (Or.inr (List.mem_map.2 ⟨a, ha, rfl⟩))
+
+/-- **accept_admission.** `handleNewConnection` starts an incoming handshake exactly when the accept
+limit is not reached, the remote IP is not blocked (when the blocklist is enabled for incoming
+connections), not already connected or connecting, and not banned; then the IP is recorded in
+`connectedPeerIPs` and the incoming count stays ≤ `MaxPeerAccept`; otherwise nothing changes. -/
+theorem accept_admission (cfg : Cfg) (blocked : Nat → Bool) (s : State) (ip : Nat) :
+    ((handleNewConnection cfg blocked s ip).2 = .accept ↔
+      s.incoming.length < cfg.maxPeerAccept ∧ ¬ (cfg.blIncoming = true ∧ blocked ip = true) ∧
+      ip ∉ s.connected ∧ ip ∉ s.banned) ∧
+    ((handleNewConnection cfg blocked s ip).2 = .accept →
+      ip ∈ (handleNewConnection cfg blocked s ip).1.connected ∧
+      (handleNewConnection cfg blocked s ip).1.incoming.length ≤ cfg.maxPeerAccept) ∧
+    ((handleNewConnection cfg blocked s ip).2 ≠ .accept → (handleNewConnection cfg blocked s ip).1 = s) := by
+  unfold handleNewConnection
+  by_cases h1 : s.incoming.length ≥ cfg.maxPeerAccept
+  · simp [h1]; omega
+  · by_cases h2 : (cfg.blIncoming && blocked ip) = true
+    · have : cfg.blIncoming = true ∧ blocked ip = true := by simpa using h2
+      simp [h1, this]
+    · have h2' : ¬ (cfg.blIncoming = true ∧ blocked ip = true) := by simpa using h2
+      by_cases h3 : s.connected.contains ip = true
+      · have : ip ∈ s.connected := by simpa using h3
+        simp [h1, h2, this]
+      · have h3' : ip ∉ s.connected := by simpa using h3
+        by_cases h4 : s.banned.contains ip = true
+        · have : ip ∈ s.banned := by simpa using h4
+          simp [h1, h2, h3', this]
+        · have h4' : ip ∉ s.banned := by simpa using h4
+          simp only [h1, h2, h3, h4, if_false, Bool.false_eq_true]
+          refine ⟨⟨fun _ => ⟨by omega, h2', h3', h4'⟩, fun _ => trivial⟩, fun _ => ⟨by simp, ?_⟩, fun h => absurd rfl h⟩
+          simp; omega
+
+/-- **peers_admission.** `handleNewPeers` never queues an address whose IP is banned at that moment
+(`filterBannedIPs`), and what it dials obeys `dial_admission`. -/
+theorem peers_admission (cfg : Cfg) (blocked : Nat → Bool) {max : Nat} {ok : Nat → Nat → Prop}
+    (env : Env) (hmax : env.maxItems = max) (choose : List PA → List PA) (hch : ∀ l, Admissible l (choose l))
+    (hok : ∀ a, filtered env a = false → ok a.ip a.port)
+    (s : State) (hq : Reach max ok s.queue) (addrs : List Cand) (src now : Nat) (hc : s.completed = false) :
+    ∃ q s' dialled,
+      push env choose s.queue (addrs.filter fun a => !s.banned.contains a.ip) src now = .ok q ∧
+      Reach max ok q ∧
+      handleNewPeers cfg blocked env choose s addrs src now = .ok (s', dialled) ∧
+      (∀ a ∈ dialled, ok a.1 a.2 ∧ a.1 ∉ s.connected ∧ (cfg.checkBan = true → a.1 ∉ s.banned) ∧
+        (cfg.recheckBlocklist = true → cfg.blOutgoing = true → blocked a.1 = false)) := by
+  obtain ⟨hg, _⟩ := reach_good hq
+  obtain ⟨q, hp, _, _, _⟩ := push_good hg env hmax choose hch
+    (addrs.filter fun a => !s.banned.contains a.ip) src now
+  have hq' : Reach max ok q := Reach.push hq hmax hch hok hp
+  obtain ⟨s', dialled, hd, _, h3, _, _, _⟩ :=
+    dial_admission cfg blocked { s with needMore := false, queue := q } hq'
+  refine ⟨q, s', dialled, hp, hq', ?_, ?_⟩
+  · unfold handleNewPeers
+    simp only [hc, Bool.false_eq_true, if_false, hp]
+    rw [← hd]
+    congr 1
+    cases s; simp_all
+  · intro a ha
+    obtain ⟨_, r1, r2, _, r4, r5⟩ := h3 a ha
+    exact ⟨r1, r2, r4, r5⟩
+
+/-- A queue holding one address of IP 9 (priority 5), no connection, IP 9 banned. -/
+def bannedQueued : State :=
+  { queue := { byTime := [some ⟨9, 2, 0, 5, 1, 0⟩], tree := [5] }, banned := [9] }
+
+/-- The historical defect (finding F01, fixed in rain by d1afeec): without the ban check the queued
+address of a banned IP is dialled; with it, it is not.  Same witness as `corpus/admission/dial-banned-ip`. -/
+theorem dial_banned_counterexample :
+    ((dialAddresses ⟨1, 1, false, false, false, false⟩ (fun _ => false) bannedQueued).toOption.map (·.2)) =
+      some [(9, 2)] ∧
+    ((dialAddresses (fixedCfg 1 1 false false) (fun _ => false) bannedQueued).toOption.map (·.2)) = some [] := by
+  decide
+
+/-- The historical defect F02 (fixed in rain by 33a5bc8): an address queued before a blocklist reload
+that blocks it was dialled; the repaired loop re-checks. -/
+theorem dial_blocked_counterexample :
+    ((dialAddresses ⟨1, 1, false, true, true, false⟩ (fun ip => ip = 9)
+        { bannedQueued with banned := [] }).toOption.map (·.2)) = some [(9, 2)] ∧
+    ((dialAddresses (fixedCfg 1 1 false true) (fun ip => ip = 9)
+        { bannedQueued with banned := [] }).toOption.map (·.2)) = some [] := by
+  decide
+
+/-- Non-vacuity of `accept_admission`: one accepted, then the same IP refused as duplicate. -/
+example :
+    let r1 := handleNewConnection (fixedCfg 1 2 true true) (fun ip => ip = 7) {} 5
+    r1.2 = .accept ∧ (handleNewConnection (fixedCfg 1 2 true true) (fun ip => ip = 7) r1.1 5).2 = .duplicate ∧
+    (handleNewConnection (fixedCfg 1 2 true true) (fun ip => ip = 7) r1.1 7).2 = .blocked := by decide
+
+end Admission
 
 end Rain.Props.C18
